@@ -190,6 +190,60 @@ def r1(ctx: Ctx, rid: str) -> None:
     ctx.ob(rid, ri, "marker payload names the protected path", mws[0] if mws else None, pay_ok,
            "the collector learns WHICH file the marker protects: the marker content derives from the hook's path argument "
            "under the 'file_path' key")
+    # writer / reader agreement by scenario (nothing is run): for two files the marker lands under the collector's marker
+    # directory with the suffix the collector requires, the two markers differ, and the payload's 'file_path' is the
+    # table-relative path itself (what _marker_target normalises and protects)
+    from .common import concrete_eval, explore, resolve_value, UNKNOWN
+    gcm = ctx.prog.modules.get("datashard.garbage_collector")
+    inflight_dir = ctx.prog.const_str(ast.Name(id="INFLIGHT_PATH", ctx=ast.Load()), gcm, None) if gcm is not None else None
+    if inflight_dir is None and gcm is not None and isinstance(gcm.consts.get("INFLIGHT_PATH"), ast.Constant):
+        inflight_dir = gcm.consts["INFLIGHT_PATH"].value  # type: ignore[union-attr]
+    seen_markers = {}
+    for scen_path in ("data/ab/x-1.parquet", "/metadata/m-2.avro"):
+        for w in mws:
+            if hook_param is None or inflight_dir is None:
+                continue
+            env = {hook_param: scen_path}
+            hits = [(nid, store) for nid, store, _asm in explore(ctx, ri, [rg.entry], env, stop=[w.id]) if nid == w.id]
+            for nid, store in hits:
+                scen = dict(env)
+                scen.update({k: v for k, v in store.items() if isinstance(k, str)})
+                mp = concrete_eval(ctx, ri, path_arg(w), scen, nid)
+                if mp is UNKNOWN or not isinstance(mp, str):
+                    ctx.ob(rid, ri, "marker name is the collector's: <marker dir>/<name>.inflight", w, True,
+                           "marker path not evaluable under the scenario (not judged)", nontrivial=False, text=scen_path)
+                else:
+                    okm = mp.lstrip("/").startswith(str(inflight_dir).strip("/") + "/") and mp.endswith(".inflight") \
+                        and len(mp.lstrip("/")) > len(str(inflight_dir).strip("/")) + 1 + len(".inflight")
+                    seen_markers[scen_path] = mp
+                    ctx.ob(rid, ri, "marker name is the collector's: <marker dir>/<name>.inflight", w, okm,
+                           f"{scen_path!r} -> marker {mp!r} (collector lists {inflight_dir!r} and honours *.inflight)", text=scen_path)
+                content = kwarg(w.ast, "content", 1) or kwarg(w.ast, "data", 1)
+                vals = []
+                for src, sat in (resolve_value(ctx, ri, content, nid) if content is not None else []):
+                    for d in [x for x in ast.walk(src)] if src is not None else []:
+                        if isinstance(d, ast.Dict):
+                            for k, v in zip(d.keys, d.values):
+                                if isinstance(k, ast.Constant) and k.value == "file_path":
+                                    vals.append(concrete_eval(ctx, ri, v, scen, sat))
+                        elif isinstance(d, ast.Name) and d is not src:
+                            for s2, sat2 in resolve_value(ctx, ri, d, sat):
+                                if isinstance(s2, ast.Dict):
+                                    for k, v in zip(s2.keys, s2.values):
+                                        if isinstance(k, ast.Constant) and k.value == "file_path":
+                                            vals.append(concrete_eval(ctx, ri, v, scen, sat2))
+                if not vals or any(v is UNKNOWN for v in vals):
+                    ctx.ob(rid, ri, "marker payload is the table-relative path of the file", w, True,
+                           "payload not evaluable under the scenario (not judged)", nontrivial=False, text=scen_path)
+                else:
+                    okp = all(isinstance(v, str) and v.strip("/") == scen_path.strip("/") for v in vals)
+                    ctx.ob(rid, ri, "marker payload is the table-relative path of the file", w, okp,
+                           f"{scen_path!r} -> payload file_path {sorted(set(map(repr, vals)))}: the collector protects exactly that path",
+                           text=scen_path)
+    if len(seen_markers) == 2:
+        a_, b_ = list(seen_markers.values())
+        ctx.ob(rid, ri, "different files get different markers", mws[0] if mws else None, a_ != b_,
+               f"{a_!r} vs {b_!r}: one shared marker is overwritten by the next registration and removed by the first commit")
     app = [n for n in rg.calls() if isinstance(n.ast, ast.Call) and isinstance(n.ast.func, ast.Attribute)
            and n.ast.func.attr == "append" and "_inflight_markers" in norm_text(n.ast.func.value)]
     ctx.ob(rid, ri, "marker path is remembered for cleanup", app[0] if app else None, bool(app),
